@@ -246,8 +246,8 @@ let js_surface = [
   "LtToken","<"; "LtEqToken","<="; "GtToken",">"; "GtEqToken",">="; "LtLtToken","<<"; "GtGtToken",">>"; "GtGtGtToken",">>>";
   "AddToken","+"; "SubToken","-"; "MulToken","*"; "DivToken","/"; "ModToken","%"; "ExpToken","**";
   "BitNotToken","~"; "TypeofToken","typeof"; "PosToken","+"; "NegToken","-"; "PreIncrToken","++"; "PreDecrToken","--";
-  "PostIncrToken","++"; "PostDecrToken","--"; "NotToken","!"; "VoidToken","void"; "DeleteToken","delete"; "AwaitToken","await" ]
-let rec jsprint_case_gen ?(top = PrintModel.coq_OpAssign) rw sx =
+  "PostIncrToken","++"; "PostDecrToken","--"; "NotToken","!"; "VoidToken","void"; "DeleteToken","delete"; "AwaitToken","await"; "InToken","in"; "InstanceofToken","instanceof" ]
+let rec jsprint_case_gen ?(top = PrintModel.coq_OpAssign) ?(bytes_out = false) rw sx =
   let toks = ref (Stdlib.List.filter (fun x -> x <> "") (split ' ' sx)) in
   let next () = match !toks with t :: r -> toks := r; t | [] -> failwith "jsprint sexpr" in
   let rec parse () =
@@ -265,6 +265,7 @@ let rec jsprint_case_gen ?(top = PrintModel.coq_OpAssign) rw sx =
     | t -> failwith ("jsprint tag " ^ t) in
   let e = parse () in
   let out = if rw then RewriteModel.print_rw PrintGen.coq_T_gen (nat_of_int 200) top e else PrintGen.print_gen PrintModel.coq_OpAssign e in
+  if bytes_out then hexe (PrintRender.render out) else
   Stdlib.String.concat " " (Stdlib.List.map (function
     | PrintModel.TAtom s -> ocaml_string s
     | PrintModel.TOp n -> (try Stdlib.List.assoc (ocaml_string n) js_surface with Not_found -> "?" ^ ocaml_string n)
@@ -452,6 +453,9 @@ let register (reg : string -> (string list -> string) -> unit) =
   reg "jsstmtr" (function [sx] -> jsstmt_case ~readback:true "1" sx | _ -> "BADARGS");
   reg "jsstmtp" (function [sx] -> jsstmt_case ~print:true "1" sx | _ -> "BADARGS");
   reg "jsrw0" (function [sx] -> jsprint_case_gen ~top:PrintModel.coq_OpExpr true sx | _ -> "BADARGS");
+  reg "jsprintb" (function [sx] -> jsprint_case_gen ~bytes_out:true false sx | _ -> "BADARGS");
+  reg "jsrwb" (function [sx] -> jsprint_case_gen ~bytes_out:true true sx | _ -> "BADARGS");
+  reg "jsrw0b" (function [sx] -> jsprint_case_gen ~top:PrintModel.coq_OpExpr ~bytes_out:true true sx | _ -> "BADARGS");
   reg "cssbox" (function [v] -> Stdlib.String.concat "," (Stdlib.List.map (fun n -> string_of_int (int_of_nat n)) (CssBox.box_collapse_nat (intlist v))) | _ -> "BADARGS");
   reg "tokbuf" (function [t; o] -> tokbuf t o | _ -> "BADARGS");
   reg "json_tree" (function [t] -> show_events (JsonSpec.events_of JsonModel.SValue (parse_tree t)) | _ -> "BADARGS")
